@@ -212,6 +212,10 @@ func (r *renderer) noise(lines *[]string, light bool) {
 
 func (r *renderer) trailing() string {
 	if !r.plain && r.rng.Intn(6) == 0 {
+		if r.rng.Intn(3) == 0 {
+			// a remark at the end of a line is never metadata, whatever it starts with
+			return r.sp(1) + []string{";name of the pointer", ";author unknown", ";strategy: none", ";redcode", ";Name x", "; name y"}[r.rng.Intn(6)]
+		}
 		return r.sp(1) + "; " + []string{"note", "x equ 1", "jmp 0, <1"}[r.rng.Intn(3)]
 	}
 	return r.sp(0)
@@ -850,6 +854,15 @@ func genForBlock(rng *rand.Rand, used map[string]bool, outer []string, countName
 		} else {
 			f.body = append(f.body, genInstr(rng, env, o))
 		}
+		if rng.Intn(10) == 0 {
+			// an assertion between FOR and ROF (no counter in it: comments are copied verbatim); it is
+			// evaluated like any other, once per copy — a false one rejects the program
+			v := "1"
+			if rng.Intn(4) == 0 && c >= 1 {
+				v = "0"
+			}
+			f.body = append(f.body, item{kind: 'A', expr: []etok{{'n', v}}})
+		}
 	}
 	*budget -= 1
 	return f
@@ -983,7 +996,40 @@ func runAsmFull(cfg gmars.SimulatorConfig, text []byte) asmOutcome {
 	var w gmars.WarriorData
 	var err error
 	noteCurrent(cfg, text)
-	f := guarded(asmDeadline, func() { w, err = gmars.CompileWarrior(bytes.NewReader(text), cfg) })
+	// every eighth input (by content) is assembled from a file on disk instead of memory, after
+	// the same file has been assembled once under a roomier configuration of the same rule set:
+	// the result must depend on the text and the configuration given, not on the reader or on
+	// what the process assembled before
+	viaFile := ""
+	if dir := os.Getenv("VERIF_TMP"); dir != "" && len(text) > 0 && len(text) < 1<<16 {
+		h := uint32(2166136261)
+		for _, b := range text {
+			h = (h ^ uint32(b)) * 16777619
+		}
+		if h%8 == 0 {
+			viaFile = filepath.Join(dir, "asm-input.red")
+			if os.WriteFile(viaFile, text, 0o644) != nil {
+				viaFile = ""
+			}
+		}
+	}
+	f := guarded(asmDeadline, func() {
+		if viaFile != "" {
+			roomy := cfg
+			roomy.CoreSize, roomy.ReadLimit, roomy.WriteLimit = cfg.CoreSize*2+3, cfg.CoreSize*2+3, cfg.CoreSize*2+3
+			roomy.Length = cfg.Length*2 + 5
+			if fh, e := os.Open(viaFile); e == nil {
+				gmars.CompileWarrior(fh, roomy)
+				fh.Close()
+			}
+			if fh, e := os.Open(viaFile); e == nil {
+				w, err = gmars.CompileWarrior(fh, cfg)
+				fh.Close()
+				return
+			}
+		}
+		w, err = gmars.CompileWarrior(bytes.NewReader(text), cfg)
+	})
 	res := wresult(w, err, f)
 	if f == "timeout" {
 		asmTimeouts++
